@@ -167,3 +167,39 @@ def run_fold_case(fi, si, route):
         o = stix2.v21.Identity(name="n", identity_class="individual", created=d, modified=d)
         got = json.loads(o.serialize())["created"]
     return got == want
+
+
+# ---- timestamp OBJECTS carrying each precision setting, handed to constructors whose slots have other settings (also via deepcopy)
+def timestamp_objects(kind: int) -> bool:
+    """
+    pre: 0 <= kind <= 1
+    post: _
+    """
+    kind = pick(kind, 2)
+    with Native():
+        ok = run_ts_object_case(kind)
+    V.reached()
+    return ok
+
+
+def run_ts_object_case(kind):
+    import copy
+    import json
+    import stix2
+    from props import h_C01
+    if kind == 0:
+        return h_C01.run_special_case(14) is True
+    # deep copies write what the original wrote, and what is written reads back to the same text
+    for cls, kw in ((stix2.v20.MarkingDefinition, dict(definition_type="statement", definition={"statement": "s"})),
+                    (stix2.v21.MarkingDefinition, dict(definition_type="statement", definition={"statement": "s"})),
+                    (stix2.v20.Identity, dict(name="n", identity_class="individual")), (stix2.v21.Identity, dict(name="n", identity_class="individual"))):
+        for created in ("2020-01-01T00:00:07.120Z", "2020-01-01T00:00:07.123456Z", "2020-01-01T00:00:07Z", dt.datetime(2020, 1, 1, 0, 0, 7, 250000, tzinfo=pytz.utc)):
+            o = cls(created=created, **kw)
+            text = json.loads(o.serialize())["created"]
+            c = copy.deepcopy(o)
+            if json.loads(c.serialize())["created"] != text:
+                return False
+            back = stix2.parse(o.serialize())
+            if json.loads(back.serialize())["created"] != text:
+                return False
+    return True
